@@ -29,6 +29,7 @@ type cfg struct {
 	Cancel bool     // a thread cancels the connection context
 	Spawn  bool     // alwaysSpawnGoroutine
 	Deep   int      // deviation bound for this item in every tier (0 = the tier's bound)
+	Mw     int      // pass-through middlewares registered on the connection (each is a scheduling point)
 	Chain  []string // data changes applied one at a time by the main thread, each after the system has settled
 }
 
@@ -43,6 +44,9 @@ func (c cfg) deep() string {
 	}
 	if len(c.Chain) > 0 {
 		s += " chain=" + strings.Join(c.Chain, ",")
+	}
+	if c.Mw > 0 {
+		s += fmt.Sprintf(" mw=%d", c.Mw)
 	}
 	return s
 }
@@ -76,6 +80,8 @@ func parse(s string) cfg {
 			fmt.Sscan(kv[1], &c.Deep)
 		case "chain":
 			c.Chain = list()
+		case "mw":
+			fmt.Sscan(kv[1], &c.Mw)
 		}
 	}
 	return c
@@ -161,6 +167,12 @@ func item(c cfg, oracle string) *explore.Item {
 			opts = append(opts, graphql.WithMaxSubscriptions(c.Max))
 		}
 		conn := graphql.CreateConnection(ctx, &sock{w}, w.schema, opts...)
+		for i := 0; i < c.Mw; i++ {
+			conn.Use(func(input *graphql.ComputationInput, next graphql.MiddlewareNextFunc) *graphql.ComputationOutput {
+				rt.Yield()
+				return next(input)
+			})
+		}
 		served := rt.NewVar(false)
 		rt.Go(func() {
 			conn.ServeJSONSocket()
@@ -505,6 +517,10 @@ func c02configs(tier string) []cfg {
 		cfg{Client: []string{"S:a:flag"}, Env: []string{"flag++"}, Spawn: true},
 		cfg{Client: []string{"S:a:slow", "U:a", "S:a:slow"}, Env: []string{"flag++"}},
 		cfg{Client: []string{"S:a:slow"}, Env: []string{"flag++", "flag++"}},
+		// middlewares on the connection (1 and 3: with and without spare capacity in the slice that holds them)
+		cfg{Client: []string{"S:a:flag", "M:m:5"}, Env: []string{"flag++"}, Mw: 3},
+		cfg{Client: []string{"S:a:flag", "M:m:5"}, Mw: 1},
+		cfg{Client: []string{"S:a:items", "S:b:flag"}, Env: []string{"edit"}, Mw: 3},
 		// an Expensive field on long-lived objects: cached across re-runs, dropped with the element, needed again later
 		cfg{Client: []string{"S:a:people"}, Env: []string{"p-score"}},
 		cfg{Client: []string{"S:a:people"}, Env: []string{"p-remove", "p-score1"}},
